@@ -18,7 +18,9 @@
 //     applied to the original multiset.
 // Objects beyond the plain ones: "flexpath_ext"/"robustpath_ext" give element 0 a HalfWidth end and
 // element 1 an Extended end (end_extensions are lengths: the model scales them by |scale|);
-// "flexpath_bend" uses BendType::Circular (bend_radius is a length as well).  They are separate
+// "flexpath_bend" uses BendType::Circular (bend_radius is a length as well);
+// "robustpath_param_grad"/"_numgrad" are segment + parametric section with an analytic gradient
+// callback / with the numerical gradient (control), HalfWidth and Extended ends.  They are separate
 // searches so that a failure there never stops the exploration of the plain objects.
 // Bounds: quick = all histories of length <= 2; thorough = length <= 3 for the curved objects
 // (region comparison) and <= 4 for the vertex-exact ones.  A state whose check fails is reported
@@ -602,6 +604,14 @@ struct FlexTarget : Target {
 // ---------------------------------------------------------------- RobustPath
 static const double ROBUST_TOL = 1e-3;
 static const double ROBUST_U[] = {0, 0.5, 1, 1.5, 2.25, 3};
+// Variants 3/4: segment + *parametric* section, created with an analytic gradient callback (3) or
+// with the numerical gradient (4, control).  The callback's value is in the untransformed frame;
+// the library must carry it through the path's trafo like every other section kind.  Ends are
+// HalfWidth / Extended so that the caps depend on the end direction as well.
+enum RobustVariant { ROBUST_PARAM_GRAD = 3, ROBUST_PARAM_NUM = 4 };
+static bool robust_has_ext(int variant) { return variant == FLEX_EXT || variant == ROBUST_PARAM_GRAD || variant == ROBUST_PARAM_NUM; }
+static Vec2 param_curve(double u, void*) { return Vec2{6 * u, 3 * u * u}; }   // leaves along +x: smooth join, radius of curvature >= 6
+static Vec2 param_curve_grad(double u, void*) { return Vec2{6, 6 * u}; }
 static void build_robust(RobustPath& rp, int variant, bool scale_width, double wmul, double offmul = 1, double extmul = 1) {
     memset(&rp, 0, sizeof rp);
     double w[2] = {0.6 * wmul, 0.4 * wmul}, off[2] = {1.0 * offmul, -1.0 * offmul};
@@ -609,7 +619,7 @@ static void build_robust(RobustPath& rp, int variant, bool scale_width, double w
     rp.init(Vec2{0, 0}, 2, w, off, ROBUST_TOL, 1000, tags);
     rp.scale_width = scale_width;
     rp.simple_path = false;
-    if (variant == FLEX_EXT) {
+    if (robust_has_ext(variant)) {
         rp.elements[0].end_type = EndType::HalfWidth;
         rp.elements[1].end_type = EndType::Extended;
         rp.elements[1].end_extensions = Vec2{0.5 * extmul, 0.75 * extmul};
@@ -619,6 +629,11 @@ static void build_robust(RobustPath& rp, int variant, bool scale_width, double w
     wi[0].type = InterpolationType::Constant; wi[0].value = 0.6 * wmul;
     wi[1].type = InterpolationType::Linear; wi[1].initial_value = 0.4 * wmul; wi[1].final_value = 0.8 * wmul;
     rp.segment(Vec2{4, 0}, wi, NULL, false);
+    if (variant == ROBUST_PARAM_GRAD || variant == ROBUST_PARAM_NUM) {
+        rp.parametric(param_curve, NULL, variant == ROBUST_PARAM_GRAD ? param_curve_grad : NULL, NULL, NULL, NULL, true);  // to (10,3)
+        set_rect_rep(rp.repetition, 2, 2, Vec2{40, 50});
+        return;
+    }
     rp.arc(3, 3, -M_PI / 2, 0, 0, NULL, NULL);                         // quarter turn to the left, ends at (7,3) heading +y
     rp.cubic(Vec2{0, 2}, Vec2{1, 4}, Vec2{1, 6}, NULL, NULL, true);   // gentle S to (8,9)
     set_rect_rep(rp.repetition, 2, 2, Vec2{40, 50});
@@ -724,7 +739,7 @@ struct RobustTarget : Target {
             // which deviation from the model would explain the observed outline?  (diagnosis only)
             std::string diag = "other";
             for (int c = 1; c < 4 && diag == "other"; c++) {
-                if ((c & 2) && variant != FLEX_EXT) continue;
+                if ((c & 2) && !robust_has_ext(variant)) continue;
                 std::string hkey = fmt("robust-hyp v%d sw%d c%d k%.12Lg", variant, sw ? 1 : 0, c, sw ? (ld)1 : m.k);
                 auto hit = REGION_CACHE.find(hkey);
                 if (hit == REGION_CACHE.end()) {
@@ -1073,6 +1088,12 @@ static std::vector<std::unique_ptr<XfSys>> build_systems() {
         XfSys* s = add("xf.robustpath_ext.sw", "robustpath_ext", "path", geom_alphabet(false), [] { return (Target*)new RobustTarget(FLEX_EXT, true); });
         s->static_tags = {{"scale_width", jbool(true)}};
     }
+    {
+        XfSys* s = add("xf.robustpath_param.grad", "robustpath_param_grad", "path", geom_alphabet(false), [] { return (Target*)new RobustTarget(ROBUST_PARAM_GRAD, true); });
+        s->static_tags = {{"scale_width", jbool(true)}, {"parametric_gradient", jstr("callback")}};
+        s = add("xf.robustpath_param.numgrad", "robustpath_param_numgrad", "path", geom_alphabet(false), [] { return (Target*)new RobustTarget(ROBUST_PARAM_NUM, true); });
+        s->static_tags = {{"scale_width", jbool(true)}, {"parametric_gradient", jstr("numerical")}};
+    }
     return v;
 }
 
@@ -1096,7 +1117,7 @@ int main(int argc, char** argv) {
     for (int e = -depth; e <= depth; e++) {
         ld k = powl(2, e);
         RobustTarget::region_for(FLEX_PLAIN, false, k);
-        if (e == 0) { RobustTarget::region_for(FLEX_PLAIN, true, k); RobustTarget::region_for(FLEX_EXT, true, k); }
+        if (e == 0) { RobustTarget::region_for(FLEX_PLAIN, true, k); RobustTarget::region_for(FLEX_EXT, true, k); RobustTarget::region_for(ROBUST_PARAM_GRAD, true, k); RobustTarget::region_for(ROBUST_PARAM_NUM, true, k); }
     }
     run.note(fmt("alphabets: geometry %zu ops (+2 non-uniform scales for Polygon), placement %zu ops, repetition %zu ops; depth %d (vertex-exact objects in the thorough tier: %d)", geom_alphabet(false).size(), placement_alphabet().size(), repetition_alphabet().size(), depth, depth + (run.thorough() ? 1 : 0)));
     for (auto& s : systems) {
